@@ -49,6 +49,15 @@ SRC = {
           "Raw cell content\nsecond raw line\n",
           "nothing alike whatsoever, really not\n",
           ""],
+    # pathological text: lines that read like tool output / markers / non-ASCII
+    "P": ["keep\n\\ No newline at end of file\n\\ No newline at end of file\n\\ No newline at end of file\nend\n",
+          "keep\n\\ No newline at end of file\n\\ No newline at end of file\n\\ No newline at end of file\nEND\n",
+          "keep\n\\ No newline at end of file\n\\ No newline at end of file\n\\ No newline at end of file\nEnd\n",
+          "keep\n\\ No newline at end of file\n\\ No newline at end of file\n\\ No newline at end of file\nend\nmore\n",
+          "keep\n\\ No newline at end of file\n\\ No newline at end of file\n\\ No newline at end of file\nend",
+          "<<<<<<< local\ncaf\u00e9 \u4e2d\u6587\n=======\n>>>>>>> remote\n\\ No newline at end of file\nend\n",
+          "something else entirely, nothing in common at all\n",
+          ""],
     "S": ["a=1\n", "a=2\n", "a=3\n", "a=1\nb\n", "a=1", "b=1\n", "zzzzzzzzzzzzzzzzzzzzzzz\n", ""],   # short (<10 chars): always 'similar'
 }
 
@@ -190,6 +199,7 @@ TEMPLATES = {
     "codeJloo": dict(type="code", src="B", outputs=["json_loo"], md=0),
     "codeJsc": dict(type="code", src="B", outputs=["json_scalar"], md=0),
     "codeS": dict(type="code", src="S", outputs=["stream"], md=0),
+    "codeP": dict(type="code", src="P", outputs=[], md=0),
     "md": dict(type="markdown", src="M", md=1, att=False),
     "mdAtt": dict(type="markdown", src="M", md=0, att=True),
     "raw": dict(type="raw", src="R", md=1),
